@@ -22,7 +22,24 @@ var vSessionMenu = []string{
 	"q", "h", "help x", "a 0x10", "addr 99999999999999999999", "d 1", "up 3", "g 0",
 }
 
+// vNarrowLoads: sub-word loads from never-known memory, so that stepping asks
+// for 1-, 2- and 4-byte values at the emulator prompt.
+var vNarrowLoads = []uint32{
+	rvprog.I(0x100, 0, 0, 5, 0x03), // lb x5,0x100(x0)
+	rvprog.I(0x200, 0, 1, 6, 0x03), // lh x6,0x200(x0)
+	rvprog.I(0x300, 0, 2, 7, 0x03), // lw x7,0x300(x0)
+	rvprog.I(1, 5, 0, 5, 0x13),     // addi x5,x5,1
+}
+
+// prompt answers: in range, negative below the signed minimum of a narrow
+// width, above the unsigned range, malformed
+var vPromptAnswers = []string{"0", "-200", "-1", "0x1ffff", "-0x80000001", "zz", ""}
+
 func VerifC22EmulatorSession() {
+	if sym.Param("narrow", 0) == 1 {
+		vNarrowPromptSession()
+		return
+	}
 	code, err := rvprog.Build(rvprog.ThreeBlocks, rvprog.Base)
 	sym.Assert(err == nil, "program builds")
 	if err != nil {
@@ -67,5 +84,40 @@ func VerifC22EmulatorSession() {
 	sym.RestoreOutput()
 	sym.Assert(rerr == nil, "the session ends by quitting, without an internal error")
 	sym.Assert(printed > 0, "screens were rendered")
+	sym.Reach("session-ended")
+}
+
+// vNarrowPromptSession: step over sub-word loads of unknown memory; every
+// prompt is answered with any of the prepared answers (a rejected answer is
+// followed by ENTER and asked again).
+func vNarrowPromptSession() {
+	code, err := rvprog.Build(vNarrowLoads, rvprog.Base)
+	sym.Assert(err == nil, "program builds")
+	if err != nil {
+		return
+	}
+	m, err := New(code, rvprog.Base, vState(0))
+	sym.Assert(err == nil, "emulation mode builds")
+	if err != nil {
+		return
+	}
+	ui, err := consoleui.New(m)
+	sym.Assert(err == nil, "the UI accepts the emulator mode")
+	if err != nil {
+		return
+	}
+	var script []string
+	steps := sym.Param("steps", 2)
+	for i := 0; i < steps; i++ {
+		script = append(script, "s", vPromptAnswers[sym.Choose(len(vPromptAnswers))])
+	}
+	script = append(script, "0", "0", "0", "0", "0", "0", "q", "", "q", "", "q", "")
+	sym.SetInputLines(script)
+	sym.SetTermHeight(24)
+	sym.ResetOutput()
+	var rerr error
+	sym.NoPanic(func() { rerr = ui.Run() })
+	sym.RestoreOutput()
+	sym.Assert(rerr == nil, "the session ends by quitting, without an internal error")
 	sym.Reach("session-ended")
 }
